@@ -683,7 +683,7 @@ def tier_opts(tier):
     if tier == "thorough":
         return {"runs": 600000, "determinism_sample": 1024, "perturb_sample": 3000, "asan_runs": 100000,
                 "builder_max_values": 14, "run_timeout": 30.0, "shrink_per_class": 3, "mutants": True}
-    return {"runs": 60000, "determinism_sample": 64, "perturb_sample": 400, "builder_max_values": 8,
+    return {"asan_runs": 6000, "runs": 60000, "determinism_sample": 64, "perturb_sample": 400, "builder_max_values": 8,
             "run_timeout": 6.0, "shrink_per_class": 2}
 
 
